@@ -82,11 +82,15 @@ def call_spec(I, fi, env):
             d = fi.node.args.defaults
             if len(d) and p in params[len(params) - len(d):]:
                 continue
-            raise OutOfReach("clause %s needs %s which is not available here" % (fi.qualname, p))
+            raise MissingState("clause %s needs %s which is not available here" % (fi.qualname, p))
     try:
         return I.call_function(fi, [], kwargs, top=True, spec=True)
     except PyRaise as e:
         raise ContractError("contract clause %s raised %s: %s" % (fi.qualname, e.name, e.msg))
+
+
+class MissingState(OutOfReach):
+    """A clause names a local/parameter that the code (no longer) has."""
 
 
 class ContractError(Exception):
